@@ -302,6 +302,14 @@ class Gen:
                     out.append(("def", name, I(0)))
                     out.append(("assign", name, rhs))
                 out.append(LOG("g%d" % depth, V(name)))
+            elif k < 0.985:
+                # the exit is written in the catch (or finally-guarded) part of a nested block and taken only when the
+                # error is really raised
+                sig = r.choice([("break",), ("continue",)] + ([("return", ("bin", "+", I(100 * depth), I(r.randint(0, 9))))] if in_fn else []))
+                cond = self.loop_cond(lv)
+                raiser = ("if", [(cond, r.choice([("error", S("x")), ("bin", "/", I(1), I(0)), V("undefined_name_xyz")]))], None)
+                out.append(("block", [LOG("try%d" % depth, I(i)), raiser], [(None, ("seq", [LOG("caught%d" % depth, I(i)), sig]))], []))
+                out.append(LOG("after-try%d" % depth, I(i)))
             else:
                 out.append(LOG("t%d" % depth, I(i)))
         return out
@@ -688,6 +696,26 @@ def t_mutable_defaults(g):
     return out
 
 
+def t_receiver_once(g):
+    """`e->m(args)` evaluates e once: the member is looked up on, and self is, that one value"""
+    mk = ("deffn", "mkobj", [("tag", None, False)],
+          ("seq", [LOG("mk", V("tag")),
+                   ("obj", [("tag", V("tag")), ("who", ("fn", [("self", None, False)], ("member", V("self"), "tag"))),
+                            ("plus", ("fn", [("self", None, False), ("a", None, False), ("b", I(5), False)], ("list", [("member", V("self"), "tag"), V("a"), V("b")])))])]))
+    builder = ("def", "bld", ("obj", [("items", ("list", [])),
+                                      ("add", ("fn", [("self", None, False), ("x", None, False)],
+                                               ("seq", [CALL("append", ("member", V("self"), "items"), V("x")), V("self")]))),
+                                      ("build", ("fn", [("self", None, False)], ("member", V("self"), "items")))]))
+    nxt = [("def", "turn", I(0)),
+           ("deffn", "nextobj", [], ("seq", [("opassign", "turn", "+", I(1)), CALL("mkobj", V("turn"))]))]
+    return [mk, builder] + nxt + [
+        LOG("ro1", ("mcall", CALL("mkobj", S("A")), "who", [])),
+        LOG("ro2", ("mcall", CALL("nextobj"), "who", [])), LOG("ro3", ("mcall", CALL("nextobj"), "who", [])),
+        LOG("ro4", ("mcall", CALL("nextobj"), "plus", [("named", "b", I(1)), ("named", "a", I(2))])),
+        LOG("ro5", ("mcall", ("mcall", ("mcall", V("bld"), "add", [("pos", I(1))]), "add", [("pos", I(2))]), "build", [])),
+        LOG("ro6", V("turn"))]
+
+
 def t_def_in_block(g):
     return [("deffn", "f", [], ("seq", [("block", [("def", "inblock", I(5))], [], [LOG("fin", I(0))]),
                                         ("if", [(B(True), ("seq", [("def", "inbranch", I(6))]))], None),
@@ -728,4 +756,4 @@ def t_higher_order(g):
             LOG("h7", ("comp", "list", [CALL("apply1", ("fn", [("e", None, False)], ("bin", "+", V("e"), V("k"))), V("i"))], [("i", None, ("lit", ("list", (("int", 1), ("int", 2)))))], "single", None))]
 
 
-SCOPE_TEMPLATES = [t_destructuring, t_higher_order, t_counter, t_lexical_vs_dynamic, t_assign_nearest, t_defaults, t_binding, t_methods, t_fresh_frames, t_def_in_block, t_mutable_defaults]
+SCOPE_TEMPLATES = [t_destructuring, t_higher_order, t_counter, t_lexical_vs_dynamic, t_assign_nearest, t_defaults, t_binding, t_methods, t_fresh_frames, t_def_in_block, t_mutable_defaults, t_receiver_once]
